@@ -34,7 +34,7 @@ def fmtVal (enc : String) : Option Bytes → String
   | some b =>
     match enc with
     | "i8" | "i16" | "i32" | "i64" | "int" => toString (Slim.leSigned b)
-    | "u16" | "u32" | "u64" => toString (leVal b)
+    | "u16" | "u32" | "u64" | "nu32" => toString (leVal b)
     | "s16" => String.ofList ((b.drop 2).map (fun c => Char.ofNat c.toNat))
     | "te7" => "{" ++ toString (Slim.leSigned (b.take 4)) ++ " " ++ toString (leVal ((b.drop 4).take 2)) ++ " " ++
         toString (leVal ((b.drop 6).take 1)) ++ "}"
@@ -61,7 +61,7 @@ def encSizeOf (enc : String) : Option Nat :=
   match enc with
   | "i8" => some 1
   | "i16" | "u16" => some 2
-  | "i32" | "u32" => some 4
+  | "i32" | "u32" | "nu32" => some 4
   | "i64" | "u64" | "int" => some 8
   | "te7" => some 7
   | "f64" => some 8
